@@ -34,7 +34,7 @@ man = {
                  'kind_free_text': 'NOT the deciding technique: plain-Rust transcription of the ISO model (native/src/iso.rs) evaluated through the public API on a deterministic corpus; used (1) as the labelled bounded stand-in when the deductive check of a property is undecided in the current tree, (2) to attach a concrete failing input to a failed obligation, (3) to arbitrate which property a failed multi-property clause belongs to, (4) as extra exploration in the thorough tier; native/c17_harness.rs is the bounded stand-in for the str/SVG clauses of C17'}],
     'checks': checks,
     'not_applicable': na,
-    'notes': 'exit 2 from a check means UNDECIDED (tool limit with no bounded stand-in available), never a violation. A line BOUNDED property=... with exit 0 means: the deductive check could not decide part of the cone in this tree and the bounded native oracle found no failing case (evidence level exploration for that run). See DESIGN.md.',
+    'notes': 'OK-BOUNDED (exit 0) marks a run in which part of the cone was decided by the bounded stand-in only. exit 2 from a check means UNDECIDED (tool limit with no bounded stand-in available), never a violation. A line BOUNDED property=... with exit 0 means: the deductive check could not decide part of the cone in this tree and the bounded native oracle found no failing case (evidence level exploration for that run). See DESIGN.md.',
 }
 json.dump(man, open(os.path.join(VERIF, 'MANIFEST.json'), 'w'), indent=1)
 print('claimed', [c['property_id'] for c in checks], 'n/a', len(na))
